@@ -290,6 +290,14 @@ Theorem noncanonical_preset_is_recompressed : forall enc cc r c,
 Proof. exact noncanonical_preset_recompressed_l. Qed.
 Print Assumptions noncanonical_preset_is_recompressed.
 
+(* the pattern of Read calls by which the caller's body delivers its bytes — all at once then (0, EOF), the
+   last data together with io.EOF, one byte per call, short reads with zero-byte reads in between — is an
+   independent input of the client model: the request that is sent (and hence everything the handler reads,
+   [roundtrip]) does not depend on it *)
+Theorem client_ignores_read_pattern : forall enc cc r k, client enc cc (set_reads r k) = client enc cc r.
+Proof. exact client_ignores_read_pattern_l. Qed.
+Print Assumptions client_ignores_read_pattern.
+
 Theorem client_compresses : forall enc cc r c,
   client_validate cc = true -> is_compressed cc.(c_type) = true -> writer_codec cc.(c_type) = Some c ->
   hget r.(q_ce) = s_empty -> body_ok r = true ->
